@@ -12,7 +12,7 @@ BOUNDS = {
              "root, every excluded-edge subset, avoid_boundary on/off, BFS and DFS traversal. MST: polylines on <=4 vertices and "
              "the 2-triangle surface with arbitrary real weights, 'one' and 'length' (collinear coordinates). Face trees: 2-3 "
              "triangle surfaces, two disjoint triangles and two quads sharing two sides (+ a triangle), every forbidden-edge subset. Cell trees: two tetrahedra, two disjoint "
-             "tetrahedra, every forbidden-face subset of the shared faces. Forests on the same meshes.",
+             "tetrahedra, four tetrahedra around an edge (cyclic adjacency), every forbidden-face subset of the shared faces. Forests on the same meshes.",
     "thorough": "adds polylines on 5 vertices, a 4-triangle closed fan, a 3-tetrahedron chain, MST on one tetrahedron (6 edges)",
 }
 OUTSIDE = "larger meshes; 'length' weights on non-collinear coordinates"
@@ -31,7 +31,10 @@ SURF = {"tri2": (4, [(0, 1, 2), (0, 2, 3)]), "tri3": (5, [(0, 1, 2), (0, 2, 3), 
         # two quads sharing TWO sides (around the interior valence-2 vertex 1) and a triangle glued to the first quad
         "quad2v+1": (6, [(0, 1, 2, 3), (2, 1, 0, 4), (3, 2, 5)])}
 VOL = {"tet1": (4, [(0, 1, 2, 3)]), "tet2": (5, [(0, 1, 2, 3), (1, 2, 3, 4)]), "tet1+1": (8, [(0, 1, 2, 3), (4, 5, 6, 7)]),
-       "tet3": (6, [(0, 1, 2, 3), (1, 2, 3, 4), (2, 3, 4, 5)])}
+       "tet3": (6, [(0, 1, 2, 3), (1, 2, 3, 4), (2, 3, 4, 5)]),
+       # four tetrahedra around the edge (0,1): the cell adjacency graph is a cycle (a cell behind a forbidden face is still
+       # reachable the other way round)
+       "tetfan4": (6, [(0, 1, 2, 3), (0, 1, 3, 4), (0, 1, 4, 5), (0, 1, 5, 2)])}
 
 
 def _pick(sx, name, allowed):
@@ -333,7 +336,7 @@ def obligations(tier):
     for k in (["tri2", "tri3", "tri1+1", "quad2v+1"] if q else ["tri2", "tri3", "strip3", "fan4", "tri1+1", "quad2v+1"]):
         obs.append(Ob("ftree-" + k, face_tree(k), covers=COVERS, split=5, note="face spanning tree on " + k))
         obs.append(Ob("fforest-" + k, forest("face", k), covers=COVERS, split=5, note="face spanning forest on " + k))
-    for k in (["tet2", "tet1+1"] if q else ["tet2", "tet3", "tet1+1"]):
+    for k in (["tet2", "tet1+1", "tetfan4"] if q else ["tet2", "tet3", "tet1+1", "tetfan4"]):
         obs.append(Ob("ctree-" + k, cell_tree(k), covers=COVERS, split=4, note="cell spanning tree on " + k))
         obs.append(Ob("cforest-" + k, forest("cell", k), covers=COVERS, split=4, note="cell spanning forest on " + k))
     obs.append(Ob("vforest-poly4", forest("vertex", "poly", 4), covers=COVERS, split=6, note="vertex spanning forest on every polyline with 4 vertices"))
